@@ -188,7 +188,17 @@ class Acc(object):
 
 
 def _ordkey(o):
-    return tuple(o) if isinstance(o, (list, tuple)) else (0, o)
+    """flattened (shard, depth, position, ...) key of the first occurrence of a violation"""
+    out = []
+
+    def rec(x):
+        if isinstance(x, (list, tuple)):
+            for y in x:
+                rec(y)
+        else:
+            out.append(x)
+    rec(o)
+    return tuple(out)
 
 
 # --------------------------------------------------------------------------
@@ -354,6 +364,8 @@ def finish(mod, acc, tier, seed, wall, nshards):
     os.makedirs(os.path.join(VERIF, 'evidence'), exist_ok=True)
     with open(os.path.join(VERIF, 'evidence', '%s.json' % prop), 'w') as f:
         json.dump(ev, f, indent=1, sort_keys=True, default=jdefault)
+    if new:
+        exit_code = 1       # at least one confirmed, unlisted violation: that is the verdict
     for l in lines:
         print(l)
     print('%s tier=%s seed=%d evaluations=%d distinct_nontrivial=%d states=%d transitions=%d '
